@@ -260,7 +260,7 @@ fn one_case(sh: &mut Shard, tape: &[u32]) -> Result<(), Violation> {
     let nprev = g.t.choose(3);
     for k in 0..nprev {
         let is_s = g.t.chance(1, 4);
-        let (name, e) = if is_s { (format!("PS{}$", k + 1), g.str(1)) } else { (format!("PC{}{}", k + 1, g.t.pick(&["", "", "%", "&", "!", "#"])), g.num(1)) };
+        let (name, e) = if is_s { (format!("PS{}$", k + 1), g.str(1)) } else { (format!("PC{}{}{}", k + 1, g.t.pick(&["", "", ".x"]), g.t.pick(&["", "", "%", "&", "!", "#"])), g.num(1)) };
         // earlier constants must be valid themselves: only keep accepted ones
         let def = format!("CONST {} = {}\n", name, e);
         if matches!(impl_run::front(&format!("{}{}", prelude, def)), Ok(_)) {
@@ -273,7 +273,7 @@ fn one_case(sh: &mut Shard, tape: &[u32]) -> Result<(), Violation> {
     let depth = 1 + g.t.choose(4);
     let expr = if is_string { g.str(depth.min(3)) } else { g.num(depth) };
     let suffix = if is_string { "$" } else { *g.t.pick(&["", "", "", "%", "&", "!", "#"]) };
-    let name = format!("{}{}", g.t.pick(&["CX", "Limit", "k"]), suffix);
+    let name = format!("{}{}", g.t.pick(&["CX", "Limit", "k", "Rate.Max"]), suffix);
     let in_sub = g.t.chance(1, 4);
     let shadow = in_sub && !prelude.is_empty() && g.t.chance(1, 2);
     let case = Case { prelude, name, expr, in_sub, is_string, shadow };
